@@ -1,10 +1,34 @@
 import KawinV.Proto
-/-! driver verbs for C03 (stub: no verbs yet) -/
+import KawinV.Model.KWNFault
+/-! driver verbs for the KWN fault-path model (Float instance) -/
 namespace KawinV.Drv.C03
-open KawinV.Proto
+open KawinV.Proto KawinV.KWNF
+
+def optList : P (Option (List Float)) := do
+  let t ← tok
+  if t == "none" then pure none
+  else if t == "some" then do let l ← flts; pure (some l)
+  else failure
+
+/-- kwn.growth nElem nBounds dG precDens (none | some growth xEqA xEqB) kin (none | some prevGrowth) prevEqA prevEqB -/
+def growth : P String := do
+  let nE ← nat; let nB ← nat; let dG ← flt; let dens ← flt
+  let t ← tok
+  let res ← (if t == "none" then pure none
+             else if t == "some" then do
+               let g ← flts; let a ← flts; let b ← flts; pure (some (g, a, b))
+             else failure : P (Option (List Float × List Float × List Float)))
+  let kin ← flts
+  let pg ← optList
+  let pa ← flts; let pb ← flts
+  match singleGrowthMulti nE nB dG dens res kin pg pa pb with
+  | .ok o => pure s!"val {flist o.growth} {flist o.xEqA} {flist o.xEqB} {bstr o.tablesKept}"
+  | .error .attr => pure "exc attr"
+  | .error .unbound => pure "exc unbound"
 
 def handle (verb : String) : Option (P String) :=
   match verb with
+  | "kwn.growth" => some growth
   | _ => none
 
 end KawinV.Drv.C03
